@@ -350,7 +350,7 @@ func TestCMAC(t *testing.T) {
 		kl := 32
 		if route == "subtle" {
 			kl = rapid.SampledFrom([]int{16, 24, 32}).Draw(rt, "keylen")
-		} else if rapid.IntRange(0, 7).Draw(rt, "k16") == 0 {
+		} else if gen.OneIn(rt, "k16", 64) { // a tolerated refusal below: kept rare (was 12 % of the cases by rapid's small-value bias)
 			kl = 16
 		}
 		keyBytes := gen.BytesN(rt, "key", kl)
